@@ -27,7 +27,7 @@ def sh(cmd, cwd=None, env=None, timeout=900):
     e.pop("SANSLDAP_REPO", None)
     if env:
         e.update(env)
-    p = subprocess.run(cmd, shell=True, cwd=cwd, env=e, capture_output=True, text=True, timeout=timeout)
+    p = subprocess.run(cmd, shell=True, cwd=cwd, env=e, capture_output=True, text=True, errors="replace", timeout=timeout)
     return p.returncode, p.stdout + p.stderr
 
 
@@ -51,7 +51,7 @@ def one(seed):
             res["apply_error"] = out[-300:]
             return res
         demo = os.path.join(d, "demo.py")
-        if seed.startswith(("B-", "B3-", "B4-", "B5-", "B6-", "B7-", "B8-", "B9-", "benign-")):
+        if seed.startswith(("B-", "B3-", "B4-", "B5-", "B6-", "B7-", "B8-", "B9-", "B10-", "benign-")):
             rc, out = sh(f"{PY} -m pytest -q -p no:cacheprovider -x --timeout=900 {scratch}/tests", cwd=scratch, env={"PYTHONPATH": f"{scratch}/src"})
             res["tests_pass_with_change"] = rc == 0
         if os.path.exists(demo):
@@ -82,12 +82,19 @@ def one(seed):
     return res
 
 
+def one_safe(seed):
+    try:
+        return one(seed)
+    except Exception as e:       # one seed's harness trouble (a demo printing undecodable bytes, a timeout) must not lose the whole run
+        return {"seed": seed, "applies": None, "harness_error": f"{type(e).__name__}: {e}"[:300]}
+
+
 def main():
     seeds = sorted(s for s in os.listdir(SEEDED) if os.path.exists(os.path.join(SEEDED, s, "patch.diff")))
     if len(sys.argv) > 1:
         seeds = [s for s in seeds if s in sys.argv[1:]]
-    with ProcessPoolExecutor(max_workers=12) as ex:
-        results = list(ex.map(one, seeds))
+    with ProcessPoolExecutor(max_workers=14) as ex:
+        results = list(ex.map(one_safe, seeds))
     rows = []
     for r in results:
         seed = r["seed"]
@@ -101,9 +108,9 @@ def main():
                 meta = {}
         if seed.startswith("regress"):
             target = open(os.path.join(d, "props.txt")).read().strip()
-        elif seed.startswith(("r2-", "r3-", "r4-", "r5-", "r6-", "r7-", "r8-", "r9-")):
+        elif seed.startswith(("r2-", "r3-", "r4-", "r5-", "r6-", "r7-", "r8-", "r9-", "r10-")):
             target = seed.split("-")[1]
-        elif seed.startswith(("B-", "B3-", "B4-", "B5-", "B6-", "B7-", "B8-", "B9-", "benign-")):
+        elif seed.startswith(("B-", "B3-", "B4-", "B5-", "B6-", "B7-", "B8-", "B9-", "B10-", "benign-")):
             target = "none (behaviour-preserving)"
         else:
             target = seed.split("-")[0]
@@ -129,7 +136,7 @@ def main():
             "demo_passes_without_change": r.get("demo_passes_without_change"),
             "detected_by": detected,
             "analysis_errors": errors,
-            "confirmed": bool(r.get("applies")) and (seed.startswith("regress") or (seed.startswith(("B-", "B3-", "B4-", "B5-", "B6-", "B7-", "B8-", "B9-", "benign-")) and r.get("tests_pass_with_change", True)) or (r.get("tests_pass_with_change") and r.get("demo_fails_with_change") and r.get("demo_passes_without_change"))),
+            "confirmed": bool(r.get("applies")) and (seed.startswith("regress") or (seed.startswith(("B-", "B3-", "B4-", "B5-", "B6-", "B7-", "B8-", "B9-", "B10-", "benign-")) and r.get("tests_pass_with_change", True)) or (r.get("tests_pass_with_change") and r.get("demo_fails_with_change") and r.get("demo_passes_without_change"))),
         })
         json.dump(meta, open(meta_path, "w"), indent=1)
         rows.append(meta)
